@@ -319,5 +319,12 @@ def thorough(ctx: Ctx) -> None:
     _required(ctx, 'C03.b+', 'raw_encode')
 
 
-RULES = [rule_a, rule_b, rule_c, rule_d, rule_e, rule_f, rule_g]
+def rule_h(ctx: Ctx) -> None:
+    """An undeclared attribute is admitted only by a wildcard whose namespace constraint it satisfies, whatever processContents
+    says (wild.constraint_first body)."""
+    from .wild import constraint_first
+    constraint_first(ctx, 'C03.h', which=('XsdAnyAttribute',))
+
+
+RULES = [rule_a, rule_b, rule_c, rule_d, rule_e, rule_f, rule_g, rule_h]
 THOROUGH = [thorough]
